@@ -133,6 +133,27 @@ def obligations(r, tier, seed):
             k.check(e4.vertices[0] is mine2[0] and e4.vertices[1] is mine2[1], "reused edge is bound to the second graph's vertices")
         obs.append(Ob("C18/pre-bound-edges/%s" % kind, prebound, funcs=[GRAPH + "._initialize"]))
 
+    # ---- internal: the validity predicate itself, asked directly (what construction relies on): an edge that is not bound, bound
+    #      to a different number of vertices, or bound to vertices with other ids than it names is not valid
+    def is_valid_direct(k):
+        r_ = k.r
+        mk = lambda vertices: r_.EdgeOdometry([4, 9], k.np.eye(3), mkpose(k, "SE2"), vertices)
+        v4, v9, v5 = r_.Vertex(4, mkpose(k, "SE2")), r_.Vertex(9, mkpose(k, "SE2")), r_.Vertex(5, mkpose(k, "SE2"))
+        k.check(mk([v4, v9]).is_valid() is True, "bound to the vertices it names: valid")
+        k.check(mk(None).is_valid() is False, "not bound: not valid")
+        k.check(mk([v4]).is_valid() is False, "bound to too few vertices: not valid")
+        k.check(mk([v4, v9, v5]).is_valid() is False, "bound to too many vertices: not valid")
+        k.check(mk([v9, v4]).is_valid() is False, "bound in the wrong order: not valid")
+        k.check(mk([v4, v5]).is_valid() is False, "bound to a vertex with another id: not valid")
+        ml = lambda vertices: r_.EdgeLandmark([4, 9], k.np.eye(2), mkpose(k, "R2"), mkpose(k, "SE2"), 0, vertices)
+        l9, l5 = r_.Vertex(9, mkpose(k, "R2")), r_.Vertex(5, mkpose(k, "R2"))
+        k.check(ml([v4, l9]).is_valid() is True, "landmark edge bound to the vertices it names: valid")
+        k.check(ml(None).is_valid() is False, "landmark edge not bound: not valid")
+        k.check(ml([v4, l5]).is_valid() is False, "landmark edge bound to a vertex with another id: not valid")
+        k.check(ml([l9, v4]).is_valid() is False, "landmark edge bound in the wrong order: not valid")
+    obs.append(Ob("C18/internal/is_valid-asked-directly", is_valid_direct, tier="internal",
+                  funcs=["graphslam.edge.base_edge.BaseEdge._is_valid", "graphslam.edge.edge_odometry.EdgeOdometry.is_valid", "graphslam.edge.edge_landmark.EdgeLandmark.is_valid"]))
+
     def canary(k):
         r_ = k.r
         vs = [r_.Vertex(0, mkpose(k, "SE2")), r_.Vertex(1, mkpose(k, "SE2"))]
